@@ -233,6 +233,14 @@ func runC09(r *ev.Run) {
 			c09Config{txn: txns[0], mode: "DELETE", ps: 512, sector: 4096}, c09Config{txn: txns[6], mode: "DELETE", ps: 512, sector: 4096}, c09Config{txn: txns[6], mode: "PERSIST", ps: 1024, sector: 4096},
 			c09Config{txn: txns[7], mode: "DELETE", ps: 512, sector: 4096}, c09Config{txn: txns[7], mode: "DELETE", ps: 512, sector: 512})
 	}
+	// every other legal page size (65536 is the one whose header field cannot hold it: 1 in the database header, the
+	// number itself in the journal header)
+	for _, ps := range []int{2048, 8192, 16384, 32768, 65536} {
+		cfgs = append(cfgs, c09Config{txn: txns[0], mode: "DELETE", ps: ps, sector: 512})
+		if r.Thorough() || ps == 65536 {
+			cfgs = append(cfgs, c09Config{txn: txns[1], mode: "PERSIST", ps: ps, sector: 4096})
+		}
+	}
 	r.Set("configurations", len(cfgs))
 	for ci, cfg := range cfgs {
 		b0, ops, endDB, endJ, endHasJ, err := c09Record(dir, cfg)
